@@ -72,6 +72,7 @@ Judge(e, s) ==
         new == CASE e.kind = "clear" -> {}
                  [] e.kind = "add" -> old \cup {Foreign}
                  [] e.kind = "discard" -> IF old = {} THEN {} ELSE old \ {CHOOSE x \in old : \A y \in old : x <= y}
+                 [] e.kind = "swap" -> IF old = {} THEN {} ELSE (old \ {CHOOSE x \in old : \A y \in old : x <= y}) \cup {Foreign}
         s2 == [s EXCEPT !.res = [@ EXCEPT ![e.r] = new]]
         v == IF ObjectsIntact(e, s) # "ok" THEN ObjectsIntact(e, s)
              ELSE IF ResOf(e) # s2.res THEN "violation:results-changed" ELSE "ok"
